@@ -254,6 +254,7 @@ class C12(core.Check):
                 fl.append({"op": f.choice(["open", "open", "read"]), "cls": cls, "k": f.choice([1, 1, 2, 2, 3, 4, 5, 8, 13, 21, 34]),
                            "err": f.choice(["EIO", "ENOENT", "EACCES"])})
         return {"prop": "C12", "world": "W1F" if faults else "W1", "seed": seed, "docs": docs, "files": files, "paths": paths,
+                "locale_encoding": k.choice(["utf-8", "utf-8", "cp1252"]),
                 "reuse": reuse, "ops": ops, "faults": fl}
 
     def gen_w2(self, seed, s, tier):
@@ -332,6 +333,7 @@ class C12(core.Check):
                 fl.append({"op": f.choice(["open", "read"]), "cls": f.choice(["schema", "schema", "simfs", "grammar"]),
                            "k": f.choice([1, 2, 3, 5, 8, 13, 21, 34]), "err": f.choice(["EIO", "ENOENT"])})
         return {"prop": "C12", "world": "W2", "seed": seed, "docs": docs, "files": files, "paths": paths, "dicts": dicts,
+                "locale_encoding": k.choice(["utf-8", "utf-8", "cp1252"]),
                 "threads": threads, "schedule": sched, "deps": k.random() < 0.25, "faults": fl}
 
     # ------------------------------------------------------------ helpers
@@ -383,7 +385,7 @@ class C12(core.Check):
     def fresh_op(self, case, op):
         """The reference result of one operation: brand-new worker objects in a
         pristine process (called through core.in_fork), fault-free file system."""
-        fs = simfs.SimFS(self.base_files(case), cwd="/simfs/w")
+        fs = simfs.SimFS(self.base_files(case), cwd="/simfs/w", default_encoding=case.get("locale_encoding", "utf-8"))
         name = op["op"]
         with simfs.mounted(fs):
             if name == "load":
@@ -423,8 +425,9 @@ class C12(core.Check):
         expected = [core.in_fork(lambda op=op: self.fresh_op(case, op)) for op in case["ops"]]
         parsers, xforms, printers = {}, {}, {}
         validator = [None]
-        fs = simfs.SimFS(self.base_files(case), cwd="/simfs/w", faults=case.get("faults", []))
-        clean = simfs.SimFS(self.base_files(case), cwd="/simfs/w")
+        enc = case.get("locale_encoding", "utf-8")
+        fs = simfs.SimFS(self.base_files(case), cwd="/simfs/w", faults=case.get("faults", []), default_encoding=enc)
+        clean = simfs.SimFS(self.base_files(case), cwd="/simfs/w", default_encoding=enc)
         violation = None
         pred = {}
         last_kind = {}
@@ -628,7 +631,7 @@ class C12(core.Check):
         def bump(k, n=1):
             stats[k] = stats.get(k, 0) + n
 
-        fs = simfs.SimFS(self.base_files(case), cwd="/simfs/w")
+        fs = simfs.SimFS(self.base_files(case), cwd="/simfs/w", default_encoding=case.get("locale_encoding", "utf-8"))
         fs.mkdir("/simfs/out")
         mf = self.mf
         violation = None
